@@ -314,6 +314,10 @@ def run(ctx):
     ctx.attempt(_beamops.operator_frame_rule, ctx, _ElemLib(ctx.repo), "R10.14")
     # 'hyperelastic analyses': the active (fibre) stress is a tensor in the notation of the operators
     ctx.attempt(active_stress_direction_rule, ctx)
+    from . import c18 as _c18
+
+    # 'hyperelastic ... analyses': the invariants the laws are functions of are scalars of the rotated problem
+    ctx.attempt(_c18.invariant_value_rule, ctx, "R10.17")
     from . import c09 as _c09
 
     # 'a beam gives the same response in its own axes whatever its inclination': the loads of an inclined member too
